@@ -20,7 +20,7 @@ RULE = (
 )
 TIERS = {"quick": {"shards": 8, "n": 2500, "budget_s": 200, "fuzz_runs": 3000, "fuzz_shards": 2}, "thorough": {"shards": 16, "n": 20000, "budget_s": 2700, "fuzz_runs": 300000}}
 FLOOR = {"quick": 1000, "thorough": 30000}
-REQUIRED_LABELS = {"quick": ["class-merge", "explicit-function_type", "src:docstring", "src:function-handshaped", "src:emitted", "src:text", "star-args", "live:function", "live:class", "json:$ref", "json:anyOf", "json:nullable", "json:items", "sql:class", "sql:table", "sql:pk+fk-on-one-column"], "thorough": []}
+REQUIRED_LABELS = {"quick": ["class-merge", "explicit-function_type", "src:docstring", "src:function-handshaped", "src:emitted", "src:text", "star-args", "live:function", "live:class", "json:$ref", "json:anyOf", "json:nullable", "json:items", "sql:class", "sql:table", "sql:pk+fk-on-one-column", "class:return_type-attribute-not-last"], "thorough": []}
 ASSUMPTIONS = ["on ill-formed text (not derivable from the section grammar) the clauses 'name non-empty' and 'typ parses' are relaxed (P30); all other shape clauses stay"]
 TOK = [":param ", ":type ", ":return: ", ":rtype: ", ":cvar ", "Args:\n", "Returns:\n", "Raises:\n", "Kwargs:\n", "Parameters\n----------\n", "Returns\n-------\n", "alpha", "beta_x", "*args", "**kwargs", "(int)", " (str, optional)", "```int```", "```", ":", "\n", "  ", "    ", "Defaults to 5", "Defaults to ", ".", " or ", "int", "Optional[str]", " : ", "the value"]
 
@@ -89,7 +89,23 @@ def shape(ir, allow_empty_name=False, allow_bad_typ=False, allow_none_key=False)
 # ---------------------------------------------------------------------------------------------- case kinds
 @st.composite
 def case_strategy(draw):
-    kind = draw(st.sampled_from(["docstring", "docstring", "function", "function", "emitted", "emitted", "text", "class-merge", "live", "json-handshaped", "sql-handshaped"]))
+    kind = draw(st.sampled_from(["docstring", "docstring", "function", "function", "emitted", "emitted", "text", "class-merge", "live", "json-handshaped", "sql-handshaped", "class-handshaped"]))
+    if kind == "class-handshaped":
+        # a class as people write it: annotated attributes, one of them possibly called `return_type` at ANY position,
+        # a docstring documenting all, some or none of them
+        n = draw(st.integers(1, 5))
+        ns = draw(st.lists(gen_ir.names.filter(lambda s: s != "return_type"), min_size=n, max_size=n, unique=True))
+        if draw(st.booleans()):
+            ns.insert(draw(st.integers(0, len(ns))), "return_type")
+        T = {"int": ["0", "5", "-3"], "str": ["'x'", "''"], "bool": ["True", "False"], "float": ["0.5"], "Optional[int]": ["None", "3"]}
+        attrs = []
+        for a in ns:
+            t = draw(st.sampled_from(sorted(T)))
+            attrs.append((a, t, draw(st.sampled_from(T[t])) if draw(st.integers(0, 3)) else None))
+        documented = [a for a in ns if draw(st.booleans())] if draw(st.booleans()) else (list(ns) if draw(st.booleans()) else [])
+        doc = ["Config holder.", ""] + [(":return: the %s" % a if a == "return_type" else ":cvar %s: the %s" % (a, a)) for a in documented]
+        lines = ["class Foo(object):", '    """'] + ["    " + l if l else "" for l in doc] + ['    """'] + ["    %s: %s%s" % (a, t, " = %s" % v if v is not None else "") for a, t, v in attrs]
+        return {"kind": "class-handshaped", "src": "\n".join(lines) + "\n", "names": ns, "documented": documented}
     if kind == "sql-handshaped":
         # SQLAlchemy models as people write them: every combination of the Column options on one column
         n = draw(st.integers(1, 5))
@@ -281,6 +297,8 @@ def oracle(case):
                 node = ast.parse(case["src"]).body[0]
                 # an explicit function_type must not change which parameters are found (only the recorded `type`)
                 ir = cdd.function.parse.function(node, **({"function_type": case["function_type"]} if case.get("function_type") else {}))
+            elif kind == "class-handshaped":
+                ir = cdd.class_.parse.class_(ast.parse(case["src"]).body[0])
             elif kind == "class-merge":
                 cnode = ast.parse(case["src"]).body[0]
                 methods = _unique_methods(cnode)
@@ -322,6 +340,15 @@ def oracle(case):
             errs = [e for e in errs if not e.startswith("name-star")]
         if case["star"]:
             r.label("star-args")
+    elif kind == "class-handshaped":
+        errs = shape(ir)
+        want = [a for a in case["names"] if a != "return_type"]
+        if sorted(ir["params"]) != sorted(want):  # each attribute exactly once (documented ones come first: order is not C14's matter)
+            errs.append("class-attributes:%s->params %s" % (want, list(ir["params"])))
+        if "return_type" in case["names"]:
+            r.label("class:return_type-attribute" + ("-not-last" if case["names"][-1] != "return_type" else "-last"))
+            if list(ir.get("returns") or {}) != ["return_type"]:
+                errs.append("class-return-entry:%s" % list(ir.get("returns") or {}))
     elif kind == "sql-handshaped":
         errs = shape(ir, allow_none_key=is_open("P29"))
         if list(ir["params"]) != case["names"]:
